@@ -25,11 +25,12 @@ structure St where
   lastPos : List (Nat × String) := []             -- node → position text of its last `state` line
   group : List (Nat × String) := []               -- positions observed since the last operation that could change one
   bg : List (String × String) := []               -- halt requests issued in the background: (node, lock id)
+  pendingGrant : Option String := none            -- position of a grant that the primary's next observation must show
 
 def posText (obs : String) : String := (fieldOf (words obs) "pos").getD ""
 
 /-- judgement of an answered halt-lock request of node `r` with lock id `id` -/
-def haltRule (st : St) (r id obs : String) : St × String :=
+def haltRule (st : St) (r id obs : String) (deferred : Bool := false) : St × String :=
   let r := r.toNat?.getD 0
   (match st.halt with
    | some (hr, hid, ans) =>
@@ -41,7 +42,10 @@ def haltRule (st : St) (r id obs : String) : St × String :=
        let p := (obs.drop 7).toString
        let primaryPos := (st.cl.primary >>= fun k => st.lastPos.lookup k).getD p
        let st' := { st with halt := some (r, id, obs), short := st.ttlShort }
-       if p ≠ primaryPos then (st', s!"FAIL halt lock granted at {p}, the primary's last reported position is {primaryPos}")
+       -- a request that queued behind an open transaction is granted after that transaction's
+       -- commit: the primary's position is observed right after the answer, not before
+       if deferred then ({ st' with pendingGrant := some p }, "ok")
+       else if p ≠ primaryPos then (st', s!"FAIL halt lock granted at {p}, the primary's last reported position is {primaryPos}")
        else (st', "ok")
      else (st, "ok"))
 
@@ -55,7 +59,7 @@ def check (st : St) (op obs : String) : St × String :=
   | ["halt-bg", r, id] => ({ st with bg := (r, id) :: st.bg.filter (·.1 ≠ r) }, "ok")
   | ["halt-join", r] =>
     (match st.bg.lookup r with
-     | some id => haltRule { st with bg := st.bg.filter (·.1 ≠ r) } r id obs
+     | some id => haltRule { st with bg := st.bg.filter (·.1 ≠ r) } r id obs true
      | none => (st, "ok"))
   | ["unhalt", r, id] =>
     let r := r.toNat?.getD 0
@@ -80,6 +84,10 @@ def check (st : St) (op obs : String) : St × String :=
     (match rest with
      | ["state"] =>
        let st1 := { st with lastPos := (k, posText obs) :: st.lastPos.filter (·.1 ≠ k) }
+       if isPrimary ∧ st.pendingGrant.isSome ∧ st.pendingGrant ≠ some (posText obs) then
+         ({ st1 with pendingGrant := none }, s!"FAIL halt lock granted at {st.pendingGrant.getD ""}, the primary is at {posText obs}")
+       else
+       let st1 := if isPrimary then { st1 with pendingGrant := none } else st1
        -- the expected stop of a former holder
        if (fieldOf (words obs) "exit") == some "99" ∧ st.expired = some k then
          ({ st1 with cl := st.cl.upd k fun n => { n with exited := true } }, "ok")
